@@ -154,3 +154,18 @@ Theorem C08_cycle_RecursionError :
   hget h d = Some (PDict kd ((k, d) :: rest)) -> mdp_h mp_h fuel h secret d = Exn RuntimeError.
 Proof. exact cycle_RecursionError. Qed.
 Print Assumptions C08_cycle_RecursionError.
+
+(* C08_result_sharing — which result slots are which objects, at every depth (Shr, Model/C08_Heap.v):
+   under each key, a mapping value is replaced by a dict allocated by the call (and so on inside it);
+   a non-mapping value under a secret key IS the secret reference; any other non-string value
+   (list, bytes, number, None, ...) IS the argument's own reference — the result aliases the
+   lists etc. of the argument, that is what "returned as they are" means; for other strings the
+   reference is whatever mask_password returned.  Hypothesis wf t: no mapping has two equal keys. *)
+Theorem C08_result_sharing :
+  forall (mp_h : heap -> loc -> loc -> heap * loc),
+  (forall h m s, exists e, fst (mp_h h m s) = h ++ e) ->
+  forall fuel h d secret ss t h' r,
+  Den 0 h d t -> wf t = true -> is_mapping t = true -> hget h secret = Some (PStr ss) ->
+  mdp_h mp_h fuel h secret d = Ok (h', r) -> Shr (length h) secret h h' d r t.
+Proof. exact result_sharing. Qed.
+Print Assumptions C08_result_sharing.
